@@ -69,7 +69,7 @@ Theorem ctx_runner_waits_for_action : forall c sched r,
   let s := run (x_step gen_facts c) (x_init c) sched in
   x_pc s = CDone r ->
   (x_act s = Some ASent /\ x_chan s = false) \/
-  (x_act s = None /\ x_parent s <> PLive /\ r = kind_of (x_parent s)).
+  (x_act s = None /\ x_parent s <> PLive /\ r = kind_of gen_facts (x_parent s) /\ r <> ROther).
 Proof. exact x_waits_l. Qed.
 Print Assumptions ctx_runner_waits_for_action.
 
@@ -80,10 +80,19 @@ Theorem ctx_runner_result : forall c sched r,
   let s := run (x_step gen_facts c) (x_init c) sched in
   x_pc s = CDone r -> x_act s <> None ->
   r = res_of (a_out (x_a c)) \/
-  (r = RTimeout /\ x_tctx s = PDead /\ (x_fired s = true \/ x_parent s = PDead)) \/
-  (r = RCancelled /\ x_tctx s = PCanc /\ (x_parent s = PCanc \/ x_ext s <> EIdle)).
+  (r = RTimeout /\ base (x_tctx s) = PDead /\ (x_fired s = true \/ base (x_parent s) = PDead)) \/
+  (r = RCancelled /\ base (x_tctx s) = PCanc /\ (base (x_parent s) = PCanc \/ x_ext s <> EIdle)).
 Proof. exact x_result_l. Qed.
 Print Assumptions ctx_runner_result.
+
+(* ... whatever CAUSE the parent context was ended with (scenario classes PCancC / PDeadC / EvPCancelC / EvPDeadlineC): the
+   runner never returns an error outside the action's own / timeout / cancelled kinds.  Depends on the generated fact
+   f_ctx_err_src = SrcErr (DetermineContextError converts ctx.Err(), not context.Cause(ctx)). *)
+Theorem ctx_runner_kind_whatever_the_cause : forall c sched r,
+  let s := run (x_step gen_facts c) (x_init c) sched in
+  x_pc s = CDone r -> r <> ROther.
+Proof. exact x_kind_l. Qed.
+Print Assumptions ctx_runner_kind_whatever_the_cause.
 
 (* The action's context is cancelled on EVERY exit path of ...AndContext; for ...AndCancelStore on every path on which
    the action failed or was signalled — the only path that leaves it live is "the action returned nil by itself"
@@ -242,13 +251,18 @@ Qed.
 (* what the generated facts are on this tree, and the consequences that depend on them *)
 Example generated_facts_now :
   f_rat_stop_cap gen_facts = 1 /\ f_reg_lock gen_facts = LLock /\ f_reg_copies gen_facts = true /\ par_cap gen_facts 5 = 5 /\
-  In XACancelAction (f_x_timeout_branch gen_facts) /\ t_rank gen_facts t_init = 9.
+  In XACancelAction (f_x_timeout_branch gen_facts) /\ t_rank gen_facts t_init = 9 /\ f_ctx_err_src gen_facts = SrcErr.
 Proof. repeat split; try reflexivity. simpl; tauto. Qed.
 Example register_needs_the_write_lock_and_the_copy :
-  (let f := mkFacts 1 1 [] [] true true true true true 1 [] [] [] true CapLen LRLock true LRLock LRLock in
+  (let f := mkFacts 1 1 [] [] true true true true true 1 [] [] [] SrcErr true CapLen LRLock true LRLock LRLock in
    let s := run (s_step f) (s_init [[SReg [1]]; [SReg [2]]]) [0; 1; 0; 1; 0; 1; 0; 1; 0; 1] in
    s_regdone s = [2; 1] /\ s_fns s = [2]) /\
-  (let f := mkFacts 1 1 [] [] true true true true true 1 [] [] [] true CapLen LLock false LRLock LRLock in
+  (let f := mkFacts 1 1 [] [] true true true true true 1 [] [] [] SrcErr true CapLen LLock false LRLock LRLock in
    let s := run (s_step f) (s_init [[SReg [1; 2]; SScribble]]) [0; 0; 0; 0; 0; 0] in
    s_regdone s = [1; 2] /\ s_fns s = []).
 Proof. split; [exact register_under_rlock_loses_a_function | exact register_without_copy_loses_functions]. Qed.
+Example cause_would_leak_with_context_Cause :   (* the same model with DetermineContextError reading context.Cause(ctx) *)
+  let f := mkFacts 1 1 [] [] true true true true true 1 [] [] [] SrcCause true CapLen LLock true LRLock LRLock in
+  x_observe (run (x_step f (mkX true (mkA ONil false Early) PCancC None false)) (x_init (mkX true (mkA ONil false Early) PCancC None false)) [XRun])
+  = Some (mkXO ROther false false true false).
+Proof. reflexivity. Qed.
